@@ -72,6 +72,18 @@ CHECKS = {
              "packed payload, scale/zero-point layout for the declared axis, storage dtype = qtype's; moves/copies keep "
              "codes and (cast) scales byte-identical.",
         note="Inner tensors are read through __tensor_flatten__. Grouped low-bit scale layout is checked on counts only."),
+    "C07": dict(
+        technique="runtime monitor with reference-model oracle: exact-arithmetic operand sets (bit-exact against the "
+                  "float64 product) and dot-product error bounds on linear/mm/bmm/quanto::qbytes_mm and each route "
+                  "function, in worker subprocesses with intent logs (native crash containment)",
+        level="exploration", ref="4/C07",
+        text="Operand sets over both sides of every size threshold are pushed through F.linear, mm/matmul/bmm, the custom "
+             "operator and every CPU route function directly; 'exact' sets (small integer codes, power-of-two scales, "
+             "dyadic bias) must be bit-identical to the float64 product, 'realistic' sets (row scales over decades, "
+             "saturating codes) within the accumulation bound; output dtype/shape/finiteness are checked.",
+        note="Workers write the case to an intent log before running it; a worker killed by a signal is a violation "
+             "witness (known finding C07-F33 is the platform's int8pack kernel, probed in sacrificial cases; C07-F34 is "
+             "torch._int_mm with K=1). CUDA/MPS routes are not executed."),
 }
 
 PLANNED = {}
